@@ -36,6 +36,7 @@ package interp
 
 import (
 	"bytes"
+	"sort"
 	"fmt"
 	"go/types"
 	"io"
@@ -451,18 +452,52 @@ func (it *stringIter) next() tuple {
 	return okv
 }
 
+// mapIter iterates a host map in a deterministic order (Go leaves the order
+// unspecified; a fixed order keeps path replay deterministic).
 type mapIter struct {
-	iter *reflect.MapIter
-	ok   bool
+	keys []value
+	m    map[value]value
+	pos  int
+}
+
+func newMapIter(m map[value]value) *mapIter {
+	it := &mapIter{m: m}
+	for k := range m {
+		it.keys = append(it.keys, k)
+	}
+	sort.Slice(it.keys, func(i, j int) bool { return keyOrder(it.keys[i]) < keyOrder(it.keys[j]) })
+	return it
+}
+
+func keyOrder(k value) string {
+	switch x := k.(type) {
+	case *symKeyBox:
+		return fmt.Sprintf("~box%09d", x.id)
+	case string:
+		return "s:" + x
+	case *value:
+		return fmt.Sprintf("p:%p", x)
+	}
+	if kk, ok := kindOf(k); ok {
+		return fmt.Sprintf("n%02d:%020d", kk, termOf(k).Val)
+	}
+	return fmt.Sprintf("z:%T:%v", k, k)
 }
 
 func (it *mapIter) next() tuple {
-	it.ok = it.iter.Next()
-	if !it.ok {
-		return []value{false, nil, nil}
+	for it.pos < len(it.keys) {
+		k := it.keys[it.pos]
+		it.pos++
+		v, ok := it.m[k]
+		if !ok {
+			continue // deleted during iteration
+		}
+		if b, isBox := k.(*symKeyBox); isBox {
+			k = b.k
+		}
+		return []value{true, k, v}
 	}
-	k, v := it.iter.Key().Interface(), it.iter.Value().Interface()
-	return []value{true, k, v}
+	return []value{false, nil, nil}
 }
 
 type hashmapIter struct {
